@@ -588,7 +588,7 @@ pub fn run(run: &mut Run) {
     }
     run.enumerate("address-sweep", items, true, check_block);
     let t = run.tier;
-    run.explore("floating-bus", t.pick(60_000, 3_000_000), floating_strategy, check_floating);
+    run.explore("floating-bus", t.pick(60_000, 20_000_000), floating_strategy, check_floating);
 }
 
 pub fn replay(run: &mut Run, phase: &str, case: &serde_json::Value) -> Result<(), String> {
